@@ -62,6 +62,12 @@ func cgroupFileWriteIfDifferent(cgroupTaskDir string, r sysutil.Resource, value 
 	if r.ResourceType() == sysutil.CPUSetCPUSName && cpuset.IsEqualStrCpus(currentValue, value) {
 		return false, nil
 	}
+	// cgroup-v2 `cpu.max` reads as "$MAX $PERIOD" while only the quota is written, so compare the quota field
+	if r.ResourceType() == sysutil.CPUCFSQuotaName && sysutil.GetCurrentCgroupVersion() == sysutil.CgroupVersionV2 {
+		if fields := strings.Fields(currentValue); len(fields) == 2 && fields[0] == value {
+			return false, nil
+		}
+	}
 	if value == currentValue || value == CgroupMaxValueStr && currentValue == CgroupMaxSymbolStr {
 		// compatible with cgroup valued "max"
 		klog.V(6).Infof("read before write %s and got str value, considered as MaxInt64", r.Path(cgroupTaskDir))
